@@ -234,6 +234,10 @@ recurseTail:
 	// }
 	// quax = false
 
+	if intp.MaxOps > 0 && intp.NumOps > intp.MaxOps {
+		// the budget was used up by an earlier call
+		return ErrExecutionLimitExceeded
+	}
 	intp.NumOps++
 	if intp.MaxOps > 0 && intp.NumOps > intp.MaxOps {
 		return ErrExecutionLimitExceeded
